@@ -389,6 +389,12 @@ func (g *Gen) CreateDbPtView() Cmd {
 
 func (g *Gen) CreateDatabase() Cmd {
 	db := g.pickDB()
+	if g.Safe && db != "" {
+		// the create-database handler first applies CreateDbPtViewCommand for the database
+		if _, ok := g.D().PtView[db]; !ok {
+			return mk(mproto.Command_CreateDbPtViewCommand, mproto.E_CreateDbPtViewCommand_Command, &mproto.CreateDbPtViewCommand{DbName: proto.String(db), ReplicaNum: proto.Uint32(1)}, "before-create-database")
+		}
+	}
 	if g.p(0.03) {
 		db = ""
 	}
